@@ -176,3 +176,28 @@ func etCopyStr() int {
 	n := copy(a[1:], "hi")
 	return n*100 + int(a[0])
 }
+
+// --- written loop clauses follow the loop ---
+
+// the loop lives in a helper without contract: the caller's clauses move with it
+func etSumVia(n int) int { return etSumLoop(n) }
+
+func etSumLoop(n int) int {
+	s := 0
+	for i := 0; i < n; i++ {
+		s += i
+	}
+	return s
+}
+
+// a second loop that calls nothing is set aside; the written clauses stay with the first
+func etSumThenWipe(n int, buf []byte) int {
+	for k := range buf {
+		buf[k] = 0
+	}
+	s := 0
+	for i := 0; i < n; i++ {
+		s += etAdd1(i) - 1
+	}
+	return s
+}
